@@ -685,3 +685,56 @@ Proof.
     rewrite B5, A5. ring. }
   rewrite EQ. rewrite A5. ring.
 Qed.
+
+(* ------------------------------------------------------------ instance 2: no truncation, eps = 0 *)
+
+Lemma ex_add x y : ex (add x y) = Z.min (ex x) (ex y).
+Proof. rewrite add_normal. reflexivity. Qed.
+
+Lemma ex_sub x y : ex (sub x y) = Z.min (ex x) (ex y).
+Proof.
+  unfold sub, rescale_pair. destruct (ex x =? ex y)%Z eqn:E.
+  - apply Z.eqb_eq in E. cbn [ex]. lia.
+  - apply Z.eqb_neq in E. destruct (Z.min (ex x) (ex y) =? ex x)%Z eqn:E2; cbn [negb].
+    + apply Z.eqb_eq in E2. cbn [ex]. lia.
+    + apply Z.eqb_neq in E2. rewrite (rescale_down x (Z.min (ex x) (ex y))) by lia. reflexivity.
+Qed.
+
+Definition decimals_le (k : Z) (d : dec) : Prop := (- k <= ex d)%Z.
+
+(* when quantities have at most kq decimals and prices at most kp, kq + kp <= 8, no product is
+   truncated and the posted value is exactly quantity * latest price *)
+Theorem mark_to_market_exact v a c kq kp ds s' ds' :
+  account_ok a = true -> is_AL a = true -> c <> v ->
+  (0 <= kq)%Z -> (kq + kp <= 8)%Z ->
+  Forall posting_in_ok (days_postings ds) ->
+  Forall (fun p => cellb a c p = true -> decimals_le kq (p_qty p)) (days_postings ds) ->
+  Forall (fun d => forall pr, np_price_opt (d_normalized d) c = Some pr -> decimals_le kp pr) ds ->
+  process_days (valuate_proc v) val_init ds = ROk (s', ds') ->
+  cell_value a c (days_postings ds') == cell_qty a c (days_postings ds) * price_value (last_normalized None ds) c.
+Proof.
+  intros Ha HAL Hcv Hkq Hk Hin Hq Hp H.
+  assert (Hstep : forall x y, decimals_le kq x -> decimals_le kp y -> Qabs (merr x y) <= 0 /\ Qabs (merr y x) <= 0).
+  { unfold decimals_le. intros x y Hx Hy.
+    split; rewrite merr_exact by lia; discriminate. }
+  assert (Hinit : cur_ok c (decimals_le kp) (v_prev val_init)) by (intros pr Hpr; discriminate).
+  assert (P1 : decimals_le kq dec_nil) by (unfold decimals_le; cbn; lia).
+  assert (P2 : forall x y, decimals_le kq x -> decimals_le kq y -> decimals_le kq (add x y))
+    by (unfold decimals_le; intros x y Hx Hy; rewrite ex_add; lia).
+  assert (P3 : forall x y, decimals_le kp x -> decimals_le kp y -> decimals_le kp (sub x y))
+    by (unfold decimals_le; intros x y Hx Hy; rewrite ex_sub; lia).
+  assert (P4 : forall q p, decimals_le kq q -> decimals_le kp p -> Qabs (merr q p) <= 0)
+    by (intros q p Hq' Hp'; apply (Hstep q p Hq' Hp')).
+  assert (P5 : forall d q, decimals_le kp d -> decimals_le kq q -> Qabs (merr d q) <= 0)
+    by (intros d q Hd Hq'; apply (Hstep q d Hq' Hd)).
+  assert (P6 : 0 <= 0) by discriminate.
+  destruct (days_cell v a c Ha HAL Hcv (decimals_le kq) (decimals_le kp) (decimals_le kp) 0 P1 P2 P3 P4 P5 P6
+              ds val_init s' ds' H (days_in_intro a c _ _ ds Hin Hq Hp) (good_nil a c _) Hinit)
+    as (B1 & _ & _ & _ & B5 & B6).
+  cbn [val_init v_prev v_qty] in *. rewrite posq_nil in *.
+    rewrite Qmult_0_r in B6. apply Qabs_le_iff in B6. destruct B6 as [L U].
+    assert (E : cell_value a c (days_postings ds') -
+                (posq a c (v_qty s') * price_value (v_prev s') c - 0 * price_value None c) == 0)
+      by (apply Qle_antisym; assumption).
+    rewrite B5, B1 in E. rewrite <- (Qplus_0_l (_ * _)), <- E. ring.
+Qed.
